@@ -37,6 +37,17 @@ class XFlow:
             for p in _parents(r):
                 if isinstance(p, ast.ExceptHandler) and p.name == e.id:
                     return None
+            # `err = SomeError(..); err.x = ..; raise err`: the class every assignment of the local constructs
+            if not isinstance(f.node, ast.Lambda):
+                built = [a.value for a in f.own_nodes() if isinstance(a, ast.Assign) and any(isinstance(t, ast.Name) and t.id == e.id for t in a.targets)]
+                classes = set()
+                for v in built:
+                    if isinstance(v, ast.Call) and isinstance(v.func, ast.Name) and (self.cg._class_visible(v.func.id, f) is not None or v.func.id[:1].isupper()):
+                        classes.add(v.func.id)
+                    else:
+                        classes.add(None)
+                if built and len(classes) == 1 and None not in classes:
+                    return classes.pop()
             return e.id
         if isinstance(e, ast.Call):
             fn = e.func
